@@ -6,6 +6,7 @@ import EdpVerif.Lemmas.SerdeEx
 import EdpVerif.Lemmas.ElixirOrder
 import EdpVerif.Lemmas.ElixirWire
 import EdpVerif.Lemmas.ElixirFaithful
+import EdpVerif.Lemmas.ElixirWireWF
 import EdpVerif.Props.C01
 /-
 C20 — Elixir wrappers and proplist/map helpers convert back to what went in.
@@ -1083,6 +1084,17 @@ example : SetInv ⟨[.int 1099511627776, .atom [97]]⟩ ∧ ∀ x ∈ [Term.int 
     rcases hx with rfl | rfl
     · simp only [wireNorm, wireInt]; exact minDigits_natDigits _
     · simp [wireNorm, WFo]
+
+/-- the extra hypothesis of `C20_mapset_wire` is no hypothesis: the wire image of a term whose big integers have minimal digits
+has minimal digits again (Lemmas/ElixirWireWF.lean), so the wire theorem holds for EVERY set satisfying the invariant, i.e.
+(`C20_mapset_invariant`) every set the library can build -/
+theorem C20_mapset_wire_all (s : MapSet) (hs : SetInv s) :
+    (MapSet.fromTerm (wireNorm s.toTerm)).map (·.elements) = some (MapSet.ofValues (s.elements.map wireNorm)).elements :=
+  C20_mapset_wire s hs (fun x hx => WFo_wireNorm x (hs.2 x hx))
+
+example : SetInv ⟨[.int 1099511627776, .atom [97]]⟩ := by
+  refine ⟨?_, by simp [WFo]⟩
+  simp [Asc, Term.cmp, Term.norm, Term.cmpN, Term.rank]; decide
 
 /-! ## proplists, maps, builders -/
 
